@@ -2,6 +2,7 @@ import Anndb.Drive.PQ
 import Anndb.Drive.Hnsw
 import Anndb.Drive.Partition
 import Anndb.Drive.Placement
+import Anndb.Drive.Routing
 /-! `driver <engine>`: the executable Lean models behind a one-line-in, one-line-out protocol. -/
 def main (args : List String) : IO UInt32 := do
   let h ← IO.getStdin
@@ -11,4 +12,5 @@ def main (args : List String) : IO UInt32 := do
   | ["hnsw"] => Anndb.Drive.Hnsw.main h out; return 0
   | ["partition"] => Anndb.Drive.Partition.main h out; return 0
   | ["placement"] => Anndb.Drive.Placement.main h out; return 0
+  | ["routing"] => Anndb.Drive.Routing.main h out; return 0
   | _ => IO.eprintln "usage: driver <engine>"; return 2
